@@ -19,7 +19,7 @@ EXPLANATION = (
     "handler (its assert is checked as a belief and the arm's unreachability independently); in the exec handler both executor.submit* calls, "
     "_perform_rollbacks, _consume_resources and the store into _pending_jobs are dominated by the not-dry-run outcome; C28.2 who-may-call "
     "Executor.submit/submit_script: the scheduler's exec handler and executor-to-executor delegation only; C28.3 subrun forwards dryrun in run_config, "
-    "the event loop stops on an empty queue under dry-run, run() maps a pending result to DryRunResult, handle advance is skipped in _postprocess_result."
+    "the event loop stops on an empty queue under dry-run, run() maps a pending result to DryRunResult, handle advance is skipped in _postprocess_result. C28.4 (necessary condition of the prediction clause) Scheduler methods that query the backend cache or validate cached values read the dry-run flag only to log; no backend function takes a dryrun parameter."
 )
 
 SUBMIT_ALLOWED = {
